@@ -24,8 +24,14 @@ Vocabulary (`Netpol.PermLayer`).
   and rule ports are port numbers, no empty rule peer (`NPRulesValid`, the NetworkPolicy clause of
   `PoliciesValid`); admin rules have peers and valid ports, no `Pass` in the BANP. Without valid
   ports the union of connection sets is order-sensitive ("all connections" is only recognised on
-  the exact range 1-65535: counterexamples 7, 8); without valid rules two different evaluation
-  errors can be present, and which one is reported depends on the policy order (counterexample 5).
+  the exact range 1-65535); without valid rules two different evaluation errors can be present and
+  the first one met is reported. Since `getPoliciesSelectingPod` visits the selecting policies in
+  the order of their names (`Engine.policiesSelecting` = `sortByName` of the selecting policies)
+  neither depends on the order of the *documents* any more (`list_order_independent_keys_only`;
+  examples 5, 7, 8 below, former counterexamples); both still depend on the order of the rules
+  *inside* one policy (counterexamples 7i, 8i and `Netpol.PermRules.Findings`), and the proof for the
+  ingress-controller lines (`PermIngress`) still goes through the denotational reading of the
+  connection sets, which needs them.
 * `WellFormed objs` — `DistinctKeys`, `PodsReal`, `PodPortsValid`, `PoliciesValid` together. All are
   decidable and invariant under permutation.
 * `Engine.Equiv e e'` — the two engines hold the same objects: namespaces, pods, NetworkPolicies are
@@ -205,6 +211,19 @@ theorem list_order_independent_no_ingress {objs objs' : List Obj} (hp : objs.Per
     (htg : IngressA.targets objs = []) (focus : String) :
     WorldDriver.runList objs focus = WorldDriver.runList objs' focus := by
   refine runList_perm_noIngress hp hk hr hpp hv ?_ htg focus
+  cases h : Netpol.Engine.build objs with
+  | error err => rw [h] at hok; simp [Except.isOk, Except.toBool] at hok
+  | ok e => exact ⟨e, rfl⟩
+
+/-- … and from distinct keys alone: `getPoliciesSelectingPod` visits the selecting policies in the
+order of their names and `createPodOwnersMap` the pods in the order of their keys, so the two runs
+are the same computation — whatever the rules, the ports and the pods (the former counterexamples
+5, 7, 8 are instances) -/
+theorem list_order_independent_keys_only {objs objs' : List Obj} (hp : objs.Perm objs')
+    (hk : DistinctKeys objs) (hok : (Netpol.Engine.build objs).isOk = true)
+    (htg : IngressA.targets objs = []) (focus : String) :
+    WorldDriver.runList objs focus = WorldDriver.runList objs' focus := by
+  refine runList_perm_noIngress' hp hk ?_ htg focus
   cases h : Netpol.Engine.build objs with
   | error err => rw [h] at hok; simp [Except.isOk, Except.toBool] at hok
   | ok e => exact ⟨e, rfl⟩
@@ -395,12 +414,13 @@ end Examples
 
 /-! ### counterexamples: why each hypothesis is there
 
-Each world below (except 4, which the sorted iteration of `createPodOwnersMap` repaired) is a fixed
-set of objects whose report depends on the order in which the objects are met. Since document
-order, file layout and Go map iteration order all feed that order, these are candidate order
-dependences / nondeterminisms of the Go tool (1–3 need the input to hold two objects with the same
-key in different documents; 5, 7, 8 only need Go's random map iteration, on inputs the API server
-would reject). The `runList` outputs in the comments were obtained with `#eval` (`decide` cannot
+Each world below (except 4, which the sorted iteration of `createPodOwnersMap` repaired, and 5, 7,
+8, which the name order of `getPoliciesSelectingPod` repaired — they are kept as equalities, with
+their inner-order variants 7i, 8i, which remain) is a fixed set of objects whose report depends on
+the order in which the objects are met. Since document order, file layout and Go map iteration
+order all feed that order, these are candidate order dependences / nondeterminisms of the Go tool
+(1–3 need the input to hold two objects with the same key in different documents; 7i, 8i are about
+the order of the rules written in one policy, on inputs the API server would reject). The `runList` outputs in the comments were obtained with `#eval` (`decide` cannot
 unfold the `mergeSort`s inside `runList`); the `example`s check the decisive intermediate values,
 with `podOwnersMapD` for `podOwnersMap` (equal on the engine `build` returns,
 `PermLayer.podOwnersMap_build`). -/
@@ -500,13 +520,14 @@ example : podEntries ce4 = .ok [
     podEntries ce4' = podEntries ce4 := by
   decide
 
-/-! 5. two different evaluation errors are present in two policies selecting the same pod (a named
-port towards an IP block, a rule peer with neither selector nor ipBlock): the NetworkPolicy layer
-reports the first one it meets, which depends on the order of the policies — in Go a map iteration.
-`runList ce5 ""` is `(err namedPortOnIP)`, `runList ce5' ""` is `(err emptyRulePeer)`. (Both runs
-fail; the message differs. `NPRulesValid` excludes the second error, so that `namedPortOnIP` is the
-only one left. The same two errors in policies selecting two *different* pods used to depend on the
-order of the pod map as well; with the sorted peers list they no longer do.) -/
+/-! 5. **(repaired — now an equality)** two different evaluation errors are present in two policies
+selecting the same pod (a named port towards an IP block, a rule peer with neither selector nor
+ipBlock): the NetworkPolicy layer reports the first one it meets. Before
+`getPoliciesSelectingPod` visited the policies in the order of their names that depended on the
+order of the policies map — `runList ce5 ""` was `(err namedPortOnIP)`, `runList ce5' ""` was
+`(err emptyRulePeer)` —; now the policy `n1` is visited first in both. (Inside ONE policy the first
+failing rule still decides, so the inner theorem keeps `NPRulesValid`:
+`Netpol.PermRules.Findings`.) -/
 def podA : Pod := { ns := "default", name := "a", labels := [("app", "a")], ports := [] }
 def podB' : Pod := { ns := "default", name := "b", labels := [("app", "b")], ports := [] }
 def npNamedIP : NetPol :=
@@ -518,15 +539,18 @@ def npEmptyPeer : NetPol :=
 def ce5 : List Obj := [.pod podA, .pod podB', .np npNamedIP, .np npEmptyPeer]
 def ce5' : List Obj := [.pod podA, .pod podB', .np npEmptyPeer, .np npNamedIP]
 example : ce5.Perm ce5' := ((List.Perm.swap _ _ _).cons _).cons _
-example : DistinctKeys ce5 ∧ PodsReal ce5 ∧ PodPortsValid ce5 ∧ ¬ NPRulesValid ce5 := by
-  decide
+example : DistinctKeys ce5 ∧ ¬ NPRulesValid ce5 := by decide
+theorem ce5_repaired (focus : String) :
+    WorldDriver.runList ce5 focus = WorldDriver.runList ce5' focus :=
+  list_order_independent_keys_only (((List.Perm.swap _ _ _).cons _).cons _) (by decide) (by decide)
+    (by decide) focus
 /-- the loop over the whole address space as IP peer and the two pods, in the two orders -/
 def loop5 (objs : List Obj) : Except Err (List (String × String × ConnSet)) := do
   let e ← Netpol.Engine.build objs
   let owners ← podOwnersMapD e
   let entries ← e.connsBetweenPeers (LPeer.ip ⟨0, ipMax⟩ :: owners.map fun (n, p) => LPeer.wl n p) ""
   pure (entries.map entryKey)
-example : loop5 ce5 = .error .namedPortOnIP ∧ loop5 ce5' = .error .emptyRulePeer := by decide
+example : loop5 ce5 = .error .namedPortOnIP ∧ loop5 ce5' = .error .namedPortOnIP := by decide
 
 /-! 6. `build`: two kinds of conflict are present, the first one met is reported.
 `runList ce6 ""` is `(err dupNetpol)`, `runList ce6' ""` is `(err dupANP)`. -/
@@ -543,11 +567,13 @@ example : (Netpol.Engine.build ce6).map (fun _ => ()) = .error .dupNetpol ∧
 example : ErrClause .dupNetpol ce6 ∧ ErrClause .dupANP ce6 := by
   constructor <;> (simp only [ErrClause]; decide)
 
-/-! 7. **a rule port outside 1..65535** (the API server rejects it, a YAML file can hold it): the
-union over the selecting policies recognises "all connections" only on the exact range 1-65535, so
-whether the stray port 70000 is absorbed depends on the order of the policies — in Go the order of
-a map iteration. `runList ce7 "b"` has `default/b[Pod] default/a[Pod] All_Connections`,
-`runList ce7' "b"` has `default/b[Pod] default/a[Pod] SCTP_1-65535,TCP_1-65535,70000,UDP_1-65535`. -/
+/-! 7. **(repaired across policies; still a counterexample inside one policy) a rule port outside
+1..65535** (the API server rejects it, a YAML file can hold it): the union of connection sets
+recognises "all connections" only on the exact range 1-65535, so whether the stray port 70000 is
+absorbed depends on the order of the unions. Across policies that order used to be the order of the
+policies map (`runList ce7 "b"` had `default/b[Pod] default/a[Pod] All_Connections`, `runList ce7' "b"`
+had `… SCTP_1-65535,TCP_1-65535,70000,UDP_1-65535`); now the policies are visited in the order of
+their names and both orders give `All_Connections`. -/
 def sa : Selector := ⟨[("app", "a")], []⟩
 def fullPort (pr : Proto) : NPPort := ⟨some pr, .num 1 (some 65535)⟩
 def npX1 : NetPol :=
@@ -561,33 +587,63 @@ def npY : NetPol :=
     ingress := [⟨[], [⟨none, .num 70000 none⟩]⟩], egress := [] }
 def ce7 : List Obj := [.pod podA, .pod podB', .np npX1, .np npX2, .np npY]
 def ce7' : List Obj := [.pod podA, .pod podB', .np npY, .np npX1, .np npX2]
-example : ce7.Perm ce7' :=
+theorem ce7_perm : ce7.Perm ce7' :=
   (List.perm_append_comm (l₁ := [Obj.np npX1, Obj.np npX2]) (l₂ := [Obj.np npY])).append_left
     [Obj.pod podA, Obj.pod podB']
 example : DistinctKeys ce7 ∧ PodsReal ce7 ∧ PodPortsValid ce7 ∧ ¬ NPRulesValid ce7 := by
   decide
+theorem ce7_repaired (focus : String) :
+    WorldDriver.runList ce7 focus = WorldDriver.runList ce7' focus :=
+  list_order_independent_keys_only ce7_perm (by decide) (by decide) (by decide) focus
 def fullSet : PortSet := ⟨[⟨1, 65535⟩], [], []⟩
 example : podEntries ce7 = .ok [("default/a[Pod]", "default/b[Pod]", ConnSet.mk' true),
       ("default/b[Pod]", "default/a[Pod]", ConnSet.mk' true)] ∧
-    podEntries ce7' = .ok [("default/a[Pod]", "default/b[Pod]", ConnSet.mk' true),
+    podEntries ce7' = podEntries ce7 := by
+  decide
+
+/-- inside ONE policy the rules are examined in the order they are written, so the same stray port
+still makes the report depend on the *rule* order: the hypothesis `NPRulesValid` of
+`np_inner_order_independent` (`runList ce7i "b"` has `… default/a[Pod] All_Connections`,
+`runList ce7i' "b"` has `… SCTP_1-65535,TCP_1-65535,70000,UDP_1-65535`) -/
+def npOne (rules : List NPRule) : NetPol :=
+  { ns := "default", name := "one", podSel := sa, types := [.ingress], ingress := rules, egress := [] }
+def rTU : NPRule := ⟨[], [fullPort .TCP, fullPort .UDP]⟩
+def rS : NPRule := ⟨[], [fullPort .SCTP]⟩
+def r7 : NPRule := ⟨[], [⟨none, .num 70000 none⟩]⟩
+def ce7i : List Obj := [.pod podA, .pod podB', .np (npOne [rTU, rS, r7])]
+def ce7i' : List Obj := [.pod podA, .pod podB', .np (npOne [r7, rTU, rS])]
+example : PermRules.Forall₂ PermRules.ObjSim ce7i ce7i' := by decide
+example : PodsReal ce7i ∧ PodPortsValid ce7i ∧ ¬ NPRulesValid ce7i := by decide
+example : podEntries ce7i = .ok [("default/a[Pod]", "default/b[Pod]", ConnSet.mk' true),
+      ("default/b[Pod]", "default/a[Pod]", ConnSet.mk' true)] ∧
+    podEntries ce7i' = .ok [("default/a[Pod]", "default/b[Pod]", ConnSet.mk' true),
       ("default/b[Pod]", "default/a[Pod]",
         ⟨false, some ⟨[⟨1, 65535⟩, ⟨70000, 70000⟩], [], []⟩, some fullSet, some fullSet⟩)] := by
   decide
 
 /-! 8. the same through a **container port outside 1..65535** that a named rule port resolves to:
-`runList ce8 "b"` / `runList ce8' "b"` differ exactly as in 7. -/
+repaired across policies like 7 (`ce8_repaired`), still order-dependent inside one policy
+(`PodPortsValid` of the inner theorem). -/
 def podA8 : Pod := { podA with ports := [⟨"big", .TCP, 70000⟩] }
 def npYNamed : NetPol := { npY with ingress := [⟨[], [⟨none, .name "big"⟩]⟩] }
 def ce8 : List Obj := [.pod podA8, .pod podB', .np npX1, .np npX2, .np npYNamed]
 def ce8' : List Obj := [.pod podA8, .pod podB', .np npYNamed, .np npX1, .np npX2]
-example : ce8.Perm ce8' :=
+theorem ce8_perm : ce8.Perm ce8' :=
   (List.perm_append_comm (l₁ := [Obj.np npX1, Obj.np npX2]) (l₂ := [Obj.np npYNamed])).append_left
     [Obj.pod podA8, Obj.pod podB']
 example : DistinctKeys ce8 ∧ PodsReal ce8 ∧ PoliciesValid ce8 ∧ ¬ PodPortsValid ce8 := by
   decide
-example : podEntries ce8 = .ok [("default/a[Pod]", "default/b[Pod]", ConnSet.mk' true),
+theorem ce8_repaired (focus : String) :
+    WorldDriver.runList ce8 focus = WorldDriver.runList ce8' focus :=
+  list_order_independent_keys_only ce8_perm (by decide) (by decide) (by decide) focus
+def r8 : NPRule := ⟨[], [⟨none, .name "big"⟩]⟩
+def ce8i : List Obj := [.pod podA8, .pod podB', .np (npOne [rTU, rS, r8])]
+def ce8i' : List Obj := [.pod podA8, .pod podB', .np (npOne [r8, rTU, rS])]
+example : PermRules.Forall₂ PermRules.ObjSim ce8i ce8i' := by decide
+example : PodsReal ce8i ∧ NPRulesValid ce8i ∧ ¬ PodPortsValid ce8i := by decide
+example : podEntries ce8i = .ok [("default/a[Pod]", "default/b[Pod]", ConnSet.mk' true),
       ("default/b[Pod]", "default/a[Pod]", ConnSet.mk' true)] ∧
-    podEntries ce8' = .ok [("default/a[Pod]", "default/b[Pod]", ConnSet.mk' true),
+    podEntries ce8i' = .ok [("default/a[Pod]", "default/b[Pod]", ConnSet.mk' true),
       ("default/b[Pod]", "default/a[Pod]",
         ⟨false, some ⟨[⟨1, 65535⟩, ⟨70000, 70000⟩], [], []⟩, some fullSet, some fullSet⟩)] := by
   decide
